@@ -4,7 +4,7 @@ import json, os, sys
 ROOT = os.path.dirname(os.path.dirname(os.path.abspath(__file__)))
 sys.path.insert(0, os.path.join(ROOT, "engine"))
 
-BASE_NOTE = ("Trusted: Coq 8.16.1 kernel + vm_compute (closed finite facts only, no native_compute); the Go-AST translator tools/go2coq "
+BASE_NOTE = ("Every property file also carries computed closed-world facts about the current source (callee inventory of the functions it is about; for C12-C14, C16 the public surface and variable inventory). Trusted: Coq 8.16.1 kernel + vm_compute (closed finite facts only, no native_compute); the Go-AST translator tools/go2coq "
              "(regenerates coq/Gen from /repo every run); extraction (ExtrOcamlBasic only) + driver.ml; implrun + engine/*.py. "
              "Modelled, not verified: SHA-256/512, HMAC, PBKDF2, x/text NFKD (contract LC1-LC3), math/big, io.ReadFull, strings, strconv, sync.Once. "
              "No axioms (Print Assumptions: Closed under the global context).")
@@ -23,11 +23,11 @@ P = {
 P.update({
  "C02": ("Theorems C02_generated, C02_new_mnemonic, C02_all_valid: for every function `lib` meeting the measured contract of norm.NFKD.String, every valid entropy (and every read script delivering enough bytes) and each declared language, the model of CheckMnemonic/IsMnemonicValid accepts the model generator's output; more generally every sentence of 12..24 (step 3) canonical words with a correct checksum joined by U+0020 or U+3000 is accepted, whatever the entropy bits. Rests on CheckMnemonic_spec (the validator decides the specification's classifier, proved over all strings, incl. the left-padding arithmetic that defect F1 broke), computed table facts and the NFKD join lemma. Differential: valid sentences with 0..8 leading zero bytes, every list word at rotating positions, generator output fed back.",
          "Coq proof (validator = spec classifier; all valid sentences accepted) + differential correspondence on generated and crafted valid sentences", "5 C02"),
- "C03": ("Theorems C03_sound, C03_iff, C03_unsupported, C03_count: acceptance implies that the Unicode-whitespace tokens of the NFKD form are 12..24 canonical words with a correct checksum - for every string and every lib meeting the contract (a non-xsafe string is rejected because U+034F cannot occur in a list word); IsMnemonicValid <-> nil; nil maps accept nothing; for any fixed prefix exactly 2^(11-n/3) of the 2048 last words are accepted (proved by a counting argument with the hash abstract, not enumeration). Differential: damaged sentences, substitutions, all 2048 last words of sample prefixes (set and count vs the specification).",
+ "C03": ("Theorems C03_sound, C03_exact, C03_iff, C03_unsupported, C03_count: acceptance implies that the Unicode-whitespace tokens of the NFKD form are 12..24 canonical words with a correct checksum - for every string and every lib meeting the contract (a non-xsafe string is rejected because U+034F cannot occur in a list word); IsMnemonicValid <-> nil; nil maps accept nothing; for any fixed prefix exactly 2^(11-n/3) of the 2048 last words are accepted (proved by a counting argument with the hash abstract, not enumeration); C03_exact: a string is accepted iff its NFKD form is the U+0020-joined sentence of some valid entropy. Differential: damaged sentences, substitutions, all 2048 last words of sample prefixes (set and count vs the specification), membership probed by volume (millions of pseudo-random tokens), affix substitutions, histories of validator calls in one single-P process.",
          "Coq proof (acceptance => valid sentence, exact accept count) + differential search with full last-word sweeps", "5 C03"),
  "C06": ("Theorems C06_newmnemonic, C06_read_full: for every read script (any fragmentation, zero-length reads, any error kind at any point, bytes alongside or not) the model of NewMnemonic (io.ReadAtLeast transcribed) returns the BIP39 encoding of the first 4n/3 delivered bytes with n words, or the empty string and the reader's error when fewer are delivered - by induction over the script. Differential through the verif swap hook: every failure point x kind x with/without bytes, 2-fragmentations, random fragmentations, bytewise and over-long readers; io.ReadFull itself against the transcription.",
          "Coq proof by induction over read scripts + fault enumeration of the implementation through the swap hook", "5 C06"),
- "C10": ("Theorems C10_same_nfkd, C10_valid_spellings: for every lib meeting the contract and every Language value, two strings with equal NFKD forms get the same verdict (inside xsafe even the same error); every spelling whose NFKD form is a valid sentence is accepted. The Gallina NFKD (UAX #15 over the pinned Unicode 15 table) is compared with norm.NFKD.String by the K stream. Differential: every list word in NFC/NFD/NFKC/full-width inside sentences, six separators that NFKD maps to U+0020, arbitrary Unicode in other normal forms.",
+ "C10": ("Theorems C10_same_nfkd, C10_valid_spellings, C10_nfkd_idempotent, C10_normalised_form: for every lib meeting the contract and every Language value, two strings with equal NFKD forms get the same verdict (inside xsafe even the same error); every spelling whose NFKD form is a valid sentence is accepted; NFKD (UAX #15 over the pinned table) is proved idempotent on valid UTF-8, so a string and its NFKD form are validated alike. The Gallina NFKD (UAX #15 over the pinned Unicode 15 table) is compared with norm.NFKD.String by the K stream. Differential: every list word in NFC/NFD/NFKC/full-width inside sentences, six separators that NFKD maps to U+0020, arbitrary Unicode in other normal forms.",
          "Coq proof over an explicit library contract + differential correspondence on equivalent spellings", "5 C10"),
  "C15": ("Theorems C15_classification, C15_count, C15_outside_xsafe, C15_nil_only_valid: the model's result is the specification's classifier (count -> ErrWordLen, else first unknown token and its position, else checksum -> ErrChecksumIncorrect, else nil) on the tokens of the NFKD form, for all xsafe strings; ErrWordLen for every string with a wrong count; unknown-word error outside xsafe. Sentinels and gate are regenerated from the source. Differential: single-defect sentences per language x count, errors.Is against each sentinel, token and position parsed from the message.",
          "Coq proof (validator = spec classifier) + differential correspondence on single-defect sentences", "5 C15"),
@@ -60,7 +60,7 @@ P.update({
 })
 
 P.update({
- "C17": ("Theorems C17_faithful, C17_langs: the update-wordlist template is parsed with text/template/parse by the translator on every run; a Gallina interpreter of that parse tree (html/template's text-context escaper modelled byte for byte) applied to strings.Split(src, \"\\n\") renders a file that an independent Gallina reader of Go list literals (Go lexical rules on this shape: semicolon insertion, interpreted string literals, whole-file UTF-8 validity, no BOM) reads back as exactly the non-empty input lines in order under the given variable - for every input whose lines are valid UTF-8 without quote, backslash, markup characters, NUL, CR or BOM (a superset of letters and combining marks), any number of lines, blank lines anywhere, with or without trailing newline; the file->variable table is the expected bijection. Differential: the real tool built with -tags verif runs against a loopback server on the canonical files and random word files over all scripts; written bytes = model rendering; go/parser's list = model reader's list = non-empty input lines; the files compile; canonical input reproduces the committed lists.",
+ "C17": ("Theorems C17_faithful, C17_canonical, C17_langs: the update-wordlist template is parsed with text/template/parse by the translator on every run; a Gallina interpreter of that parse tree (html/template's text-context escaper modelled byte for byte) applied to strings.Split(src, \"\\n\") renders a file that an independent Gallina reader of Go list literals (Go lexical rules on this shape: semicolon insertion, interpreted string literals, whole-file UTF-8 validity, no BOM) reads back as exactly the non-empty input lines in order under the given variable - for every input whose lines are valid UTF-8 without quote, backslash, markup characters, NUL, CR or BOM (a superset of letters and combining marks), any number of lines, blank lines anywhere, with or without trailing newline; the file->variable table is the expected bijection; rendering the ten pinned canonical files yields exactly the package's lists (C17_canonical). Differential: the real tool built with -tags verif runs against a loopback server on the canonical files and random word files over all scripts; written bytes = model rendering; go/parser's list = model reader's list = non-empty input lines; the files compile; canonical input reproduces the committed lists.",
          "Coq proof over the translator-parsed template (all inputs in the domain) + differential runs of the real tool against a loopback server", "5 C17"),
 })
 
